@@ -719,6 +719,112 @@ def translate_sweeps(repo):
     return "\n".join(out), info
 
 
+# =====================================================================================================
+# Part 3: copies.  CompressConfig.copy and what MatrixProduct.metacopy / TTNS.metacopy do with compress_config.
+# =====================================================================================================
+def translate_copies(repo):
+    out = ["\n(* ============================ Part 3: copies of configurations ============================ *)"]
+    with open(os.path.join(repo, "renormalizer", "utils", "configs.py")) as f:
+        cfg_tree = ast.parse(f.read())
+    with open(os.path.join(repo, "renormalizer", "mps", "mp.py")) as f:
+        mp_tree = ast.parse(f.read())
+    with open(os.path.join(repo, "renormalizer", "tn", "tree.py")) as f:
+        tn_tree = ast.parse(f.read())
+    cc = find_class(cfg_tree, "CompressConfig")
+    cp = find_def(cc.body, "copy")
+    names, _ = params(cp)
+    if names != ["self"]:
+        raise TranslateError("signature of CompressConfig.copy")
+    body = strip_doc(cp.body)
+    if not body or ast.unparse(body[0]) != "new = self.__class__.__new__(self.__class__)":
+        raise TranslateError("CompressConfig.copy: the result is not a fresh object: %s" % (ast.unparse(body[0]) if body else ""))
+    if not (isinstance(body[-1], ast.Return) and ast.unparse(body[-1].value) == "new"):
+        raise TranslateError("CompressConfig.copy: does not return `new`")
+    dict_b = None
+    arr_b = "ArrAlias"
+    for x in body[1:-1]:
+        t = ast.unparse(x)
+        if isinstance(x, ast.Assign) and ast.unparse(x.targets[0]) == "new.__dict__" and dict_b is None:
+            v = ast.unparse(x.value)
+            if v in ("self.__dict__.copy()", "dict(self.__dict__)", "{**self.__dict__}", "copy.copy(self.__dict__)"):
+                dict_b = "DictFreshCopy"
+            elif v == "self.__dict__":
+                dict_b = "DictAlias"
+            else:
+                raise TranslateError("CompressConfig.copy: new.__dict__ = %s" % v)
+        elif t == "if self.max_dims is not None:\n    new.max_dims = self.max_dims.copy()" and dict_b is not None:
+            arr_b = "ArrFreshCopy"
+        else:
+            raise TranslateError("CompressConfig.copy: statement %s" % t[:100])
+    if dict_b is None:
+        raise TranslateError("CompressConfig.copy: attribute namespace of the result is never set")
+    out.append(comment(ast.unparse(cp)))
+    out.append("Definition config_copy_dict : dict_binding := %s.\nDefinition config_copy_max_dims : array_binding := %s.\n" % (dict_b, arr_b))
+    # every attribute store into self.* of CompressConfig outside __init__ / property setters: where the cache is written
+    writers = {}
+    for f in cc.body:
+        if isinstance(f, ast.FunctionDef):
+            for x in ast.walk(f):
+                if isinstance(x, (ast.Assign, ast.AugAssign, ast.AnnAssign)):
+                    for tg in (x.targets if isinstance(x, ast.Assign) else [x.target]):
+                        if ast.unparse(tg) == "self.max_dims":
+                            writers.setdefault(f.name, 0)
+                            writers[f.name] += 1
+    if sorted(writers) != ["__init__", "relax", "set_bonddim", "update"]:
+        raise TranslateError("max_dims is written in %s" % sorted(writers))
+    out.append("(* self.max_dims is assigned only in: __init__ (None), set_bonddim (the cache fill), update, relax *)\n"
+               "Definition max_dims_writers : list Z := [%s].\n" % "; ".join(str(writers[k]) for k in sorted(writers)))
+
+    def config_binding(cls_tree, cls, label):
+        mc = find_def(find_class(cls_tree, cls).body, "metacopy")
+        hits = [x for x in ast.walk(mc) if isinstance(x, ast.Assign) and ast.unparse(x.targets[0]) == "new.compress_config"]
+        if len(hits) != 1:
+            raise TranslateError("%s.metacopy: compress_config assigned %d times" % (cls, len(hits)))
+        v = ast.unparse(hits[0].value)
+        if v == "self.compress_config.copy()":
+            b = "AttrCopyMethod"
+        elif v == "self.compress_config":
+            b = "AttrShare"
+        else:
+            raise TranslateError("%s.metacopy: new.compress_config = %s" % (cls, v))
+        first = ast.unparse(strip_doc(mc.body)[0])
+        if first not in ("new = self.__class__.__new__(self.__class__)", "new = self.__class__(self.basis)"):
+            raise TranslateError("%s.metacopy: result object: %s" % (cls, first))
+        cpy = find_def(find_class(cls_tree, cls).body, "copy")
+        if ast.unparse(strip_doc(cpy.body)[0]) != "new = self.metacopy()":
+            raise TranslateError("%s.copy does not start from metacopy()" % cls)
+        for x in ast.walk(cpy):
+            if isinstance(x, ast.Assign) and "compress_config" in ast.unparse(x.targets[0]):
+                raise TranslateError("%s.copy assigns compress_config" % cls)
+        out.append("(* %s.metacopy: %s ; %s.copy: new = self.metacopy() + data *)\nDefinition %s_metacopy_config : attr_binding := %s.\n"
+                   % (cls, ast.unparse(hits[0]), cls, label, b))
+
+    config_binding(mp_tree, "MatrixProduct", "mp")
+    config_binding(tn_tree, "TTNS", "ttns")
+    # subclasses of MatrixProduct must go through super().metacopy() and not touch compress_config
+    for fn, cls in (("mps.py", "Mps"), ("mpo.py", "Mpo")):
+        with open(os.path.join(repo, "renormalizer", "mps", fn)) as f:
+            t = ast.parse(f.read())
+        mc = find_def(find_class(t, cls).body, "metacopy")
+        b = strip_doc(mc.body)
+        if ast.unparse(b[0]) not in ("new = super().metacopy()", "new: %s = super().metacopy()" % cls):
+            raise TranslateError("%s.metacopy does not start from super().metacopy()" % cls)
+        for x in ast.walk(mc):
+            if isinstance(x, ast.Assign) and "compress_config" in ast.unparse(x.targets[0]):
+                raise TranslateError("%s.metacopy assigns compress_config" % cls)
+    out.append("(* Mps.metacopy / Mpo.metacopy: new = super().metacopy(), compress_config untouched *)\n"
+               "(* heap semantics of one configuration, instantiated with the generated criteria / rules *)\n"
+               "Definition cfg_dflt : cfields criteria := mk_cfields Threshold 0%Q 0 None.\n"
+               "Definition mp_copy_config (h : heap criteria) (r : nat) : heap criteria * nat :=\n"
+               "  metacopy_config mp_metacopy_config config_copy_dict cfg_dflt h r.\n"
+               "Definition ttns_copy_config (h : heap criteria) (r : nat) : heap criteria * nat :=\n"
+               "  metacopy_config ttns_metacopy_config config_copy_dict cfg_dflt h r.\n"
+               "(* compress(): if bonddim_should_set: set_bonddim(length) *)\n"
+               "Definition compress_ensure_max_dims (h : heap criteria) (r : nat) (length : nat) : heap criteria :=\n"
+               "  ensure_max_dims bonddim_should_set set_bonddim cfg_dflt h r length.\n")
+    return "\n".join(out)
+
+
 def main(repo):
     path = os.path.join(repo, "renormalizer", "utils", "configs.py")
     with open(path) as f:
@@ -726,7 +832,7 @@ def main(repo):
     text, info = translate(src)
     text2, info2 = translate_sweeps(repo)
     info.update(info2)
-    return text + "\n" + text2, info
+    return text + "\n" + text2 + "\n" + translate_copies(repo), info
 
 
 if __name__ == "__main__":
